@@ -1,7 +1,8 @@
 SPECIFICATION GenSpec
 CONSTANTS
-  Users = {"carol", "dave", "root"}
+  Users = {"carol", "dave", "root", "auto"}
   Configured = {"root"}
+  AutoAdmins = {"auto"}
   Period = 5
   MaxT = 60
   Steps = {1, 4, 5}
